@@ -75,20 +75,28 @@ impl FixtureDatabase {
         None
     }
 
-    /// Get the fixture definition at a specific line (if the line is a fixture definition)
-    fn get_fixture_definition_at_line(
+    /// Get the fixture definition whose function spans a specific line.
+    ///
+    /// A signature may be spread over several lines, so a parameter is not necessarily
+    /// on the line that carries the function name.
+    pub(crate) fn get_fixture_definition_at_line(
         &self,
         file_path: &Path,
         line: usize,
     ) -> Option<FixtureDefinition> {
+        let mut enclosing: Option<FixtureDefinition> = None;
         for entry in self.definitions.iter() {
             for def in entry.value().iter() {
-                if def.file_path == file_path && def.line == line {
-                    return Some(def.clone());
+                if def.file_path == file_path
+                    && def.line <= line
+                    && line <= def.end_line
+                    && enclosing.as_ref().is_none_or(|e| def.line > e.line)
+                {
+                    enclosing = Some(def.clone());
                 }
             }
         }
-        None
+        enclosing
     }
 
     /// Find fixture definition at a given position, checking both usages and definitions.
